@@ -351,6 +351,10 @@ func main() {
 		evictWorker(os.Args[2:])
 		return
 	}
+	if len(os.Args) > 1 && os.Args[1] == "pqworker" {
+		pqWorker(os.Args[2:])
+		return
+	}
 	if len(os.Args) > 1 && os.Args[1] == "churnworker" {
 		churnWorker(os.Args[2:])
 		return
@@ -366,6 +370,16 @@ func main() {
 		evictStage(cfg, sum)
 		sum.Write(cfg.Out)
 		os.Exit(0)
+	}
+	if os.Getenv("C11_ONLY") == "pq" { // debugging aid: the persistent-query streams alone
+		pqStart(cfg)(sum)
+		sum.Write(cfg.Out)
+		os.Exit(0)
+	}
+	// persistent queries across the hand-over (pq.go): the worker process runs beside the stages below
+	var pqFinish func(*vhlib.Summary)
+	if os.Getenv("VERIF_RACE_CHILD") == "" {
+		pqFinish = pqStart(cfg)
 	}
 	installHooks()
 	n := 0
@@ -439,6 +453,7 @@ func main() {
 		churnStage(cfg, sum)
 		// memory rebalancing (eviction / reload of micro indexes) between flushes, rotations and searches (evict.go)
 		evictStage(cfg, sum)
+		pqFinish(sum)
 	}
 	endGuard := stageGuard(cfg, sum, "free-running stress and concurrent first ingest")
 	stress(cfg, sum)
